@@ -184,7 +184,12 @@ def walk(script, events):
             elif cmd == "load":
                 models[slot] = model_from_load(op)
             elif cmd in EDITS and models.get(slot) is not None:
-                models[slot].apply(op)
+                try:
+                    models[slot].apply(op)
+                except (IndexError, KeyError, ValueError):
+                    # the library accepted a call the reference model cannot interpret (invalid index/name)
+                    ev["_model_error"] = True
+                    models[slot] = None
             elif cmd == "copy":
                 src = models.get(slot)
                 models[op[1]] = src.clone() if src is not None else None
